@@ -248,6 +248,8 @@ def expr_case(ctx, base, algs, cfg, name, en):
     if st0 != 'ok':
         if st0 == 'exc':
             ctx.note_raised(r0, 'expr-default')
+            if not isinstance(r0, ZeroDivisionError) and len(ctx.notes) < 5:
+                ctx.notes.append(f'expression {en} raised on the default configuration {type(r0).__name__}: {str(r0)[:120]} | {name} grades {[list(gs) for gs, _ in pats]}')
         return
     g0 = mv_dict(r0)
     for vn, alg in algs.items():
